@@ -58,6 +58,8 @@ def _base_name(e):
 
 
 def run(ck, m):
+    from rules.common import rule_memo_safety
+    rule_memo_safety(ck, m, "MEMO", "C16")          # first: a memoised helper also hides the code it wraps from the rules below
     # ---- R1 ----------------------------------------------------------------------------
     n1 = 0
     for rel, cname in ((TY, "RenderArgs"), (TY, "ArgsNamespace"), (TY, "Frame"), (PD, "AlignedPadding"), (PD, "ExactPadding"), (PD, "Padding")):
@@ -249,8 +251,11 @@ def run(ck, m):
                 ck.ob("R2", lp, not brk, f"{q_}: the walk over the MRO can stop early (`{short(brk[0], 30) if brk else ''}`): render classes that follow a non-render class (a mixin, Generic[...]) in the MRO "
                       "would contribute no default / data namespaces", stmt=f"{q_}: MRO walk visits every class")
 
-    from rules.common import rule_memo_safety
-    rule_memo_safety(ck, m, "MEMO", "C16")
+    def init_tests(fn_):
+        return sorted({norm(c) for c in body_walk(fn_) if isinstance(c, ast.Call) and call_name(c) == "isinstance" and c.args and norm(c.args[0]) in ("init_or_namespace", "init_render_args")})
+    ia, ib = init_tests(new), init_tests(init)
+    ck.ob("R3", new, ia == ib and bool(ia), f"__new__ and __init__ classify the overloaded second argument differently ({ia} vs {ib}): what __new__ takes for a namespace is not checked for compatibility "
+          "while __init__ merges it as an initial set", stmt="RenderArgs.__new__/__init__: same classification of init_or_namespace")
 
 
 MUTANTS = [
